@@ -55,12 +55,14 @@ class Case:
     """`group`: cases of one group go, in order, through ONE converter instance (instance reuse: the
     memoisation / `_introduced_variables` / `_terms_dict` / `_funs_to_args` tables persist between the calls);
     `ctxf`: the formula whose free symbols the sampled interpretations cover (the whole group)"""
-    __slots__ = ("kind", "f", "idx", "stream", "group", "pos", "ctxf", "prev")
+    __slots__ = ("kind", "f", "idx", "stream", "group", "pos", "ctxf", "prev", "env", "earlier_fresh")
 
     def __init__(self, kind, f, idx, stream, group=None, pos=0, ctxf=None):
         self.kind, self.f, self.idx, self.stream = kind, f, idx, stream
         self.group, self.pos, self.ctxf = group, pos, (ctxf if ctxf is not None else f)
         self.prev = []
+        self.env = None            # the Environment of the formula (None: the shared one)
+        self.earlier_fresh = 0     # fresh symbols created in that manager before the conversion
 
 
 def palette(m, uni):
@@ -199,6 +201,59 @@ def ack_directed(m, uni):
     ]
 
 
+def fresh_name_cases(rng, tier, start):
+    """inputs whose own symbols are named like the generated ones (`FV<n>` Boolean and of other sorts, `ack<n>` of
+    Int / BV / Bool sort), each in a manager of its own in which 0-3 fresh symbols were created before: the
+    definition variables / Ackermann constants must avoid them (what `KeysFresh` / `ConstsFresh` assume)"""
+    out = []
+    n_cnf = 36 if tier == "quick" else 400
+    n_ack = 30 if tier == "quick" else 300
+    for j in range(n_cnf + n_ack):
+        env = Environment()
+        m = env.formula_manager
+        k = j % 4
+        for _ in range(k):
+            m.FreshSymbol()
+        a, b = m.Symbol("a"), m.Symbol("b")
+        if j < n_cnf:
+            ns = rng.sample(range(k, 10), 3)
+            v = [m.Symbol("FV%d" % n) for n in ns]
+            w = m.Symbol("FV%d" % rng.choice([n for n in range(10) if n not in ns and n >= k]), INT)
+            shapes = [
+                m.And(m.Not(v[0]), m.Or(a, b), m.Implies(v[1], a)),
+                m.Or(m.And(v[0], a), m.And(v[1], m.Not(a)), m.And(v[2], b)),
+                m.Iff(v[2], m.And(a, m.Or(v[0], b))),
+                m.And(m.Or(a, b), m.Not(v[0]), m.Or(m.Not(a), v[1], m.Equals(w, m.Int(1)))),
+                m.Ite(v[0], m.Or(a, v[1]), m.And(b, m.Not(v[2]))),
+                m.Not(m.Implies(m.Or(v[0], a), m.And(v[1], m.LT(w, m.Int(3))))),
+            ]
+            f = shapes[(j // 4) % len(shapes)]
+            c = Case("cnf", f, start + len(out), "fresh-names")
+        else:
+            ns = rng.sample(range(k, 10), 3)
+            x = m.Symbol("x", INT)
+            ai = m.Symbol("ack%d" % ns[0], INT)
+            ab = m.Symbol("ack%d" % ns[1], BOOL)
+            av = m.Symbol("ack%d" % ns[2], BVType(2))
+            fi = m.Symbol("f", FunctionType(INT, [INT]))
+            fp = m.Symbol("pr", FunctionType(BOOL, [INT]))
+            fv = m.Symbol("fb", FunctionType(BVType(2), [INT, BOOL]))
+            shapes = [
+                m.And(m.Equals(ai, m.Int(0)), m.Equals(m.Function(fi, [x]), m.Int(1))),
+                m.And(m.Not(ab), m.Function(fp, [x]), m.Not(m.Function(fp, [ai]))),
+                m.And(m.Equals(av, m.BV(0, 2)), m.Equals(m.Function(fv, [x, ab]), m.BV(3, 2)),
+                      m.Equals(m.Function(fv, [ai, a]), m.BV(1, 2))),
+                m.Or(m.Equals(m.Function(fi, [m.Function(fi, [ai])]), ai), m.Iff(ab, m.Function(fp, [m.Function(fi, [x])]))),
+                m.And(m.Equals(x, ai), m.Not(m.Equals(m.Function(fi, [x]), m.Function(fi, [ai]))), ab),
+            ]
+            f = shapes[(j // 4) % len(shapes)]
+            c = Case("ack", f, start + len(out), "fresh-names")
+        c.env = env
+        c.earlier_fresh = k
+        out.append(c)
+    return out
+
+
 def gen_cases(rng, tier):
     env = Environment()
     m = env.formula_manager
@@ -253,6 +308,7 @@ def gen_cases(rng, tier):
     rnd = [c.f for c in out if c.kind == "ack" and c.stream == "random"]
     for i in range(0, min(len(rnd), 60 if tier == "quick" else 2000) - 1, 2):
         seqs.append(("ack", [rnd[i], rnd[i + 1], rnd[i]]))
+    out.extend(fresh_name_cases(rng, tier, len(out)))
     for gi, (k, fs) in enumerate(seqs):
         ctxf = m.And(fs)
         for pos, f in enumerate(fs):
@@ -442,8 +498,10 @@ def run_cnf(ctx, env, cases, ig):
     mgr = env.formula_manager
     runs, lines, meta = [], [], []
     shared = {}
+    default_env = env
     for case in cases:
         f = case.f
+        env = case.env or default_env
         try:
             fw = wire.enc_term(f)
             tbl = simp_table(f, env)
@@ -483,12 +541,12 @@ def run_cnf(ctx, env, cases, ig):
         if ans is None:
             continue
         try:
-            compare_cnf(ctx, r, line, ans, env)
+            compare_cnf(ctx, r, line, ans, r.case.env or default_env)
         except Exception as e:
             ctx.report_k("%s: the results cannot be compared (%r)" % (r.which, e),
                          {"proc": r.which, "formula": semantic.readable(r.case.f), "index": r.case.idx})
     # ---- S
-    search_cnf(ctx, env, runs, shape_ans, ig)
+    search_cnf(ctx, default_env, runs, shape_ans, ig)
 
 
 def compare_cnf(ctx, r, line, ans, env):
@@ -566,8 +624,11 @@ def search_cnf(ctx, env, runs, shape_ans, ig):
     by_case = {}
     for r in runs:
         by_case.setdefault(r.case.idx, []).append(r)
+    default_env = env
     for idx, rs in by_case.items():
         f = rs[0].case.f
+        env = rs[0].case.env or default_env
+        mgr = env.formula_manager
         crng = case_rng(ctx, idx)
         ig.rng = crng
         interps = interps_for(rs[0].case.ctxf, ig, crng, k)
@@ -587,6 +648,16 @@ def search_cnf(ctx, env, runs, shape_ans, ig):
                              {"proc": r.which, "formula": semantic.readable(f), "index": r.case.idx,
                               "stream": r.case.stream})
                 continue
+            # freshness: no introduced symbol is a symbol of the input
+            clash = sorted(v.symbol_name() for v in set(r.iv.values()) & set(f.get_free_variables())
+                           if hasattr(v, "symbol_name"))
+            if clash:
+                ctx.report_s({"oracle": "fresh", "proc": r.which},
+                             "%s: the definition variable %s is a symbol of the input" % (r.which, clash[0]),
+                             {"proc": r.which, "formula": semantic.readable(f), "index": r.case.idx,
+                              "stream": r.case.stream, "clashing_symbols": clash,
+                              "fresh_symbols_created_earlier_in_the_manager": r.case.earlier_fresh,
+                              "clauses": sorted(sorted(str(l) for l in c) for c in r.cs)})
             # shape
             bad = shape_clauses_py(r.cs, mgr, env)
             sa = shape_ans.get(id(r))
@@ -716,8 +787,10 @@ def run_ack(ctx, env, cases, ig):
     lines, meta = [], []
     runs = []
     shared = {}
+    default_env = env
     for case in cases:
         f = case.f
+        env = case.env or default_env
         if case.group is not None:
             if case.group not in shared:
                 shared[case.group] = Ackermannizer(env)
@@ -763,7 +836,7 @@ def run_ack(ctx, env, cases, ig):
             except Exception as e:
                 ctx.report_k("ack: the results cannot be compared (%r)" % (e,),
                              {"proc": "ack", "formula": semantic.readable(r["case"].f), "index": r["case"].idx})
-    search_ack(ctx, env, runs, ig)
+    search_ack(ctx, default_env, runs, ig)
 
 
 def compare_ack(ctx, r, line, ans):
@@ -843,6 +916,14 @@ def search_ack(ctx, env, runs, ig):
                          {"proc": "ack", "formula": semantic.readable(f), "index": case.idx, "stream": case.stream,
                           "result": semantic.readable(res, 2000), "driver_shape": r.get("shape")})
             continue
+        clash = sorted(c.symbol_name() for c in set(td.values()) & set(case.ctxf.get_free_variables()))
+        if clash:
+            ctx.report_s({"oracle": "fresh", "proc": "ack"},
+                         "the Ackermann constant %s is a symbol of the input" % clash[0],
+                         {"proc": "ack", "formula": semantic.readable(f), "index": case.idx, "stream": case.stream,
+                          "clashing_symbols": clash, "result": semantic.readable(res, 1500),
+                          "fresh_symbols_created_earlier_in_the_manager": case.earlier_fresh,
+                          "constants": {str(a): str(c) for a, c in td.items()}})
         if len(ctx.samples) < 6 and td:
             ctx.sample({"formula": semantic.readable(f), "ack": semantic.readable(res, 600)})
         consts = sorted(td.values(), key=lambda c: c.symbol_name())
